@@ -124,3 +124,46 @@ package redisemu
 //@ requires cs != nil
 //@ modifies cs->blocked
 //@ ensures [C12] captured: cs.blocked == CS_CAPTURED && result == cs.unblockCh
+
+// C12: the timeout of a blocking command. Negative (or NaN) and out-of-range
+// values are refused; an accepted positive timeout never becomes 0, which the
+// worker reads as "wait without a limit"; otherwise the value handed on is the
+// timeout in nanoseconds as converted here and nowhere else.
+//@ func blockTimeoutNs
+//@ prop C12
+//@ safetyprop C13
+//@ modifies ghost.gRawTimeoutNs
+//@ ensures [C12] negative: !(timeout >= 0) ==> errText != ""
+//@ ensures [C12] too.large: timeout > 3153600000 ==> errText != ""
+//@ ghost gRawTimeoutNs int64
+//@ ghostafter "timeoutNs = int64(timeout * float64(time.Second))" : gRawTimeoutNs = timeoutNs
+//@ ensures [C12] exact: errText == "" ==> timeoutNs == gRawTimeoutNs || (timeoutNs == 1 && timeout > 0 && gRawTimeoutNs == 0)
+//@ ensures [C12] positive.never.forever: errText == "" && timeout > 0 ==> timeoutNs != 0
+
+//@ func popMultiKeyWorker
+//@ prop C12
+//@ safetyprop none
+//@ requires ctx != nil && ctx.dsc != nil && ctx.dsc.ds != nil && ctx.cs != nil
+//@ modifies *
+//@ assertbefore "output = blockOnListChangeMultiKey(" [C12] timeout.checked: errText == ""
+
+//@ func fnBLMove
+//@ prop C12
+//@ safetyprop none
+//@ requires ctx != nil && ctx.dsc != nil && ctx.dsc.ds != nil && ctx.cs != nil
+//@ modifies *
+//@ assertbefore "output = blockOnListChange(" [C12] timeout.checked: errText == ""
+
+//@ func fnBLMPop
+//@ prop C12
+//@ safetyprop none
+//@ requires ctx != nil && ctx.dsc != nil && ctx.dsc.ds != nil && ctx.cs != nil
+//@ modifies *
+//@ assertbefore "output = blockOnListChangeMultiKey(" [C12] timeout.checked: errText == ""
+
+//@ func fnBRPopLPush
+//@ prop C12
+//@ safetyprop none
+//@ requires ctx != nil && ctx.dsc != nil && ctx.dsc.ds != nil && ctx.cs != nil
+//@ modifies *
+//@ assertbefore "output = blockOnListChange(" [C12] timeout.checked: errText == ""
